@@ -10,6 +10,7 @@ ENGINES = {
     "params": dict(src=["harness/params.c", "harness/aesfam.c", "harness/hashalgs.c"]),
     "fips": dict(src=["harness/fips.c", "harness/aesfam.c", "harness/hashalgs.c"], ldflags=["-Wl,--wrap=_aes_self_tests", "-Wl,--wrap=_sha_self_tests"]),
     "fipssched": dict(src=["harness/fipssched.c"], ldflags=["-Wl,--wrap=_aes_self_tests", "-Wl,--wrap=_sha_self_tests"]),
+    "threads": dict(src=["harness/threads.c", "harness/aesfam.c", "harness/hashalgs.c"]),
     "trampeng": dict(src=["harness/trampeng.c", "harness/tramp.c", "harness/tramp.S", "harness/aesfam.c", "harness/hashalgs.c"], ldflags=["-rdynamic"]),
 }
 
@@ -255,6 +256,29 @@ def c17_post(results, libinfos, counts):
     return [], info
 
 
+def c18_tasks(tier):
+    q = tier == "quick"
+    t = []
+    def w(engine, variant, *args):
+        t.append(dict(engine=engine, variant=variant, args=["--prop", "C18"] + list(args)))
+    for (thr, n) in ((2, 3000), (8, 1500), (32, 400)):
+        w("threads", "plain", "--mode", "mixed", "--threads", thr, "--from", thr, "--count", n if q else n * 30)
+    w("threads", "tsan", "--mode", "mixed", "--threads", 8, "--from", 99, "--count", 300 if q else 6000)
+    for vc in ("host", "avx2", "sse"):
+        for part in range(4):
+            w("threads", "plain", "--mode", "storm", "--threads", 8 if vc == "host" else 4, "--vcpu", vc, "--nparts", 4, "--part", part, "--count", 1000 if q else 20000)
+    w("threads", "tsan", "--mode", "storm", "--threads", 4, "--count", 60 if q else 1500)
+    for alg in HASH_ALGS:
+        w("hashmb", "plain", "--alg", alg, "--route", "fam,isal", "--threads", 8, "--inject", 5, "--static-watch", 1, "--from", 0, "--count", 150 if q else 4000)
+    w("hashmb", "tsan", "--alg", "all", "--route", "isal", "--threads", 6, "--inject", 5, "--from", 0, "--count", 40 if q else 800)
+    # the static-storage watch under the workloads of the other engines
+    for what in ("gcm", "gcmstream", "xts", "cbc"):
+        w("aesdiff", "plain", "--what", what, "--static-watch", 1, "--from", 0, "--count", 200 if q else 3000)
+    for what in ("mh_sha1", "mh_sha256", "murmur", "rolling"):
+        w("mhroll", "plain", "--what", what, "--static-watch", 1, "--from", 0, "--count", 150 if q else 3000)
+    return t
+
+
 MH_FAMS = ["base", "sse", "avx", "avx2", "avx512"]
 GCM_FAMS = ["sse", "avx_gen2", "avx_gen4", "vaes_avx512"]
 AES_TRUST = TRUST + ["OpenSSL 3.0 EVP as second oracle for inputs longer than 4-8 KiB; ref, OpenSSL and published vectors are cross-checked at start-up"]
@@ -451,5 +475,19 @@ CHECKS = {
         assumptions=TRUST + ["controlled schedules are sequentially consistent interleavings; x86-TSO store buffering is exercised only by the free-running stress",
                              "the self-test bodies are stubs in all but 0.5% of the rounds (their duration is varied instead)"],
         tasks=c17_tasks, post=c17_post, exhaustive_key="systematic_complete", exhaustive_over="all schedules with the stated number of preemptions at protocol instructions, for the configurations listed under exhaustive_configs",
+    ),
+    "C18": dict(
+        level="exploration", evaluations=["concurrent_ops_compared", "concurrent_histories_compared", "storm_calls"],
+        must_observe=["concurrent_ops_compared", "concurrent_histories_compared", "storm_calls", "storm_entries", "static_watch_sections_compared"],
+        rule=("(a) static-storage watch: every writable input section the library's 230 objects contribute to the process (from the link map, about 220 sections, listed in the sample) is "
+              "snapshotted before the first library call and compared byte for byte after each phase of every workload below; only the 64 dispatch slots and the self-test status may differ; "
+              "(b) 2/8/32 threads each run a seeded sequence of operations on private objects (GCM one-shot/nt/stream, XTS raw/expanded, key expansion + CBC, mh_sha1, mh_sha256, murmur, rolling, "
+              "the five hash managers) and, separately, random hash histories (all families, 8 threads): every per-operation result hash / history trace must equal the one from running the "
+              "same sequence alone; (c) the same on a ThreadSanitizer build of the C layers (any report is a violation); (d) first-call storms: for each of the 64 dispatched entries, with all "
+              "slots re-armed every round, 4-8 threads released from a spinning barrier call the entry on private objects (virtual CPUs host/avx2/sse): every result must equal the "
+              "single-threaded one and the slot must end on the single-threaded target. distinct_nontrivial = distinct operation results, history shapes, (entry, bound target) pairs"),
+        assumptions=TRUST + ["a static that is written and restored within one call escapes the snapshot (the differential results and ThreadSanitizer are the backstop)",
+                             "ThreadSanitizer sees only the compiled C layers, not the assembly"],
+        tasks=c18_tasks,
     ),
 }
